@@ -1,5 +1,6 @@
 """C09 Bit operations follow infinite two's-complement semantics."""
 import json
+import os
 import re
 import framework as fw
 
@@ -45,7 +46,7 @@ def nontrivial(e):
 def low_cap_from_source(w):
     """binds the model constant LowCap to the code: which width does are_dword_low_bits_nonzero clamp to?"""
     try:
-        src = open("/repo/integer/src/bits.rs").read()
+        src = open(os.path.join(os.environ.get("VERIF_REPO", "/repo"), "integer/src/bits.rs")).read()
         m = re.search(r"fn are_dword_low_bits_nonzero\(.*?\)\s*->\s*bool\s*\{(.*?)\n    \}", src, re.S)
         body = m.group(1)
         if "n.min(WORD_BITS_USIZE)" in body:
@@ -55,6 +56,16 @@ def low_cap_from_source(w):
     except Exception:
         pass
     return 2 * w, "unbound (source pattern not recognised; conformance traces still decide)"
+
+
+def shr_dword_strict_from_source():
+    """binds ShiftAlg!ShrDwordStrict to the comparison in shr_dword"""
+    try:
+        src = open(os.path.join(os.environ.get("VERIF_REPO", "/repo"), "integer/src/shift_ops.rs")).read()
+        m = re.search(r"fn shr_dword\(.*?\{\s*if rhs (<=|<) DWORD_BITS_USIZE", src, re.S)
+        return ("TRUE" if m.group(1) == "<" else "FALSE"), "bound: rhs %s DWORD_BITS_USIZE" % m.group(1)
+    except Exception:
+        return "TRUE", "unbound (source pattern not recognised)"
 
 
 def run(ctx):
@@ -78,6 +89,11 @@ def run(ctx):
     cfg = fw.write_cfg(ctx.path("MC_BitsAlg.cfg"), invariants=["AndOK", "OrOK", "XorOK", "NotOK", "ShrOK", "BitOK"],
                        constants={"W": w, "MaxV": maxv, "MaxShift": 12, "Win": 12, "LowCap": cap})
     ctx.mc("mc-bitsalg", "C09", "BitsAlg.tla", cfg, required_actions=["PickPair", "PickShift"])
+    strict, how2 = shr_dword_strict_from_source()
+    cfg = fw.write_cfg(ctx.path("MC_ShiftAlg.cfg"), invariants=["ShlOK", "ShrOK"],
+                       constants={"W": 3, "MaxV": ctx.pick(4200, 33000), "MaxShift": 14, "ShrDwordStrict": strict})
+    ctx.mc("mc-shiftalg", "C09", "ShiftAlg.tla", cfg, required_actions=["Pick"])
+    ctx.scope["ShiftAlg"] = {"W": 3, "ShrDwordStrict": strict, "binding": how2}
     # spec -> impl
     classes = ctx.pick([0, 1, 2, 3, 4, 9], [0, 1, 2, 3, 4, 5, 9, 24, 33])
     k = ctx.pick(3, 8)
